@@ -43,6 +43,50 @@ fn zero_x_enc(kem: &str) -> Option<&'static str> {
     }
 }
 
+/// constants computed by `hpke-sim zerox` (lines "WIPE ..."): receiver context of recipient ikm
+/// "cfgprobe wipe recipient", enc = public key of ikm "cfgprobe wipe ephemeral", Base mode,
+/// ChaCha20Poly1305, HKDF-SHA256, info "cfgprobe info": (enc, base_nonce, exporter_secret)
+fn wipe_consts(kem: &str) -> (&'static str, &'static str, &'static str) {
+    match kem {
+        "x25519" => ("fe5f611613d486babd1722e1ffc1a4aa4e8e4b304c17a4f38aaea19bc6039e00", "717f372ecacbb681e64bce19", "43fc96562a7e4f8fd862b7da1235c65989806564c0d8540e38da262475ae1904"),
+        "p256" => ("0415436cb224c8ea73c6c695d5730fa01966073b42763b3384d0d756fb3ccfbe6dc12fae7d0a6f820720e251cda198cf1f0eb70e821f57640830de1e5a07143e1d", "dc7da48509cacf6d78eb94f8", "59f18c238620decb1b1165400a7507da15ad6a6cf60be6f1626e6e0930fcba17"),
+        "p384" => ("04b569cd7eee93f25363a2315fd7d5224e98281e11e2eb74fa72836f64c6bd2cc5a04e207573597ad502913579e3074274cc8983a42b4763573cfba908b8a3756027fc658423814d6fc8bc951ddb1c0691bdd501d0bd97010ad3f44e8b7282817b", "bb48db3c58f79f81bd1ce103", "268bad84432d6350e5239778d5610125cbdcd4e052efcf2d44cb8ffca152d9df"),
+        _ => ("0400fc7e9e7024ec2bbfc42fb4f26d9d04bbfb391f0ae0b4779e2a198c2b653818bce4cceb364629e1a8e0c5d9250de0fbb5b4794864e5dd48a8b41888263a2922acfa0103cbda63e446416b970dfe658dc7baf3467114141c7ca50d75c3db54155e628ec71750a24eba06f0aa49c47105fe426f53b1ec12d41a9b363fcee6adfee0054020", "1fc8dd6666fcbabd404dcfdb", "3910c87551ef59743f50bee641c8a471db82b1f9710f152e18f1f7d70821dc3c"),
+    }
+}
+
+/// Moves `v` into a slot owned by the probe, looks for the patterns, runs the destructor in place and
+/// looks again (volatile reads). Word per pattern: "absent" (never in the value), "wiped", or
+/// "SURVIVED" (every place that held it still holds it after the drop).
+fn scan_drop<T>(v: T, pats: &[Vec<u8>]) -> Vec<&'static str> {
+    let mut slot = core::mem::MaybeUninit::<T>::new(v);
+    let n = core::mem::size_of::<T>();
+    let p = slot.as_mut_ptr() as *const u8;
+    let read = |p: *const u8| -> Vec<u8> { (0..n).map(|i| unsafe { core::ptr::read_volatile(p.add(i)) }).collect() };
+    let before = read(p);
+    unsafe { core::ptr::drop_in_place(slot.as_mut_ptr()) };
+    let after = read(p);
+    let locate = |hay: &[u8], q: &Vec<u8>| -> Vec<usize> {
+        if q.is_empty() || hay.len() < q.len() {
+            return vec![];
+        }
+        (0..hay.len() - q.len() + 1).filter(|i| &hay[*i..*i + q.len()] == &q[..]).collect()
+    };
+    pats.iter()
+        .map(|q| {
+            let b = locate(&before, q);
+            let a = locate(&after, q);
+            if b.is_empty() {
+                "absent"
+            } else if b.iter().all(|o| a.contains(o)) {
+                "SURVIVED"
+            } else {
+                "wiped"
+            }
+        })
+        .collect()
+}
+
 fn hexs(b: &[u8]) -> String {
     b.iter().map(|x| format!("{:02x}", x)).collect()
 }
@@ -162,6 +206,21 @@ macro_rules! transcript {
                 },
             };
             println!("ZERO-X {} {}", $name, word);
+            h.update(word.as_bytes());
+        }
+        // the wipes on drop are part of the crate's behaviour under every configuration (and must
+        // not depend on the verification guard): receiver context and KEM shared secret
+        {
+            let (enc_hex, nonce_hex, exp_hex) = wipe_consts($name);
+            let (sk_w, _) = <Kem as KemTrait>::derive_keypair(b"cfgprobe wipe recipient");
+            let enc_w = <Kem as KemTrait>::EncappedKey::from_bytes(&unhex(enc_hex)).unwrap();
+            let r = hpke::setup_receiver::<ChaCha20Poly1305, HkdfSha256, Kem>(&OpModeR::<Kem>::Base, &sk_w, &enc_w, info).unwrap();
+            let words = scan_drop(r, &[unhex(nonce_hex), unhex(exp_hex)]);
+            let (ss, _enc) = <Kem as KemTrait>::encap(&pk_r, None, &mut DetRng(77)).unwrap();
+            let ss_bytes = ss.0.to_vec();
+            let w2 = scan_drop(ss, &[ss_bytes]);
+            let word = format!("receiver context: base_nonce {} exporter_secret {}; shared_secret {}", words[0], words[1], w2[0]);
+            println!("WIPE {} {}", $name, word);
             h.update(word.as_bytes());
         }
         println!("KEM {} {}", $name, hexs(&h.finalize()));
